@@ -155,6 +155,10 @@ def declbatch(pid, stage, tier, seed, outdir, chk):
             else:
                 m = re.search(r"VRUN-CRASH case=(\d+)", err)
                 decl = int(m.group(1)) if m else -1
+                if decl < 0 or decl == 18446744073709551615:
+                    # died outside any declaration run (generator / harness code): nothing was observed
+                    merged["inconclusive"].append("batch %s: harness failed rc=%s outside a declaration run: %s" % (name, rc, err[-400:]))
+                    continue
                 tagc = chk.crash_tag(err)
                 merged["violations"].append({"property": pid, "clause": "crash", "tag": tagc, "size": 1,
                                              "detail": "batch %s died (rc=%s) while running declaration %d: %s" % (name, rc, decl, chk.crash_summary(err)),
